@@ -96,6 +96,17 @@ CHECKS["C11"] = dict(
          "of the flag without an obligation makes the check inconclusive.",
     design="§4 C11")
 
+CHECKS["C05"] = dict(
+    engine="E2 mirsym (MIR -> z3)", technique="symbolic execution of rustc MIR (loop bodies from havocked loop states), z3 validity queries over uninterpreted constructor terms, native replay",
+    text="Bounded symbolic model checking of the signature-enforcement kernels: one iteration of call_parameters' "
+         "formal/actual zip from an arbitrary loop state (arity rule; constraint parent = declared parameter type with "
+         "its nullable flag, child = argument), the Return arm of gen_stmt, the annotated arms of id_from_var and the "
+         "decision block of unify_type (receiver/argument order of the superset test, error propagation, Any).",
+    note="Kernels only: loops are cut at their headers (one-step semantics); that a violation is still caught in every "
+         "nesting context and the accepted-exactly-when direction for whole programs are outside. Context::class / "
+         "Name::from resolution is trusted to denote the declared type.",
+    design="§4 C05")
+
 NOT_APPLICABLE = {
     "C02": "needs the generator executed on symbolic programs (core::fmt/to_py recursion does not finish in CBMC even on concrete 3-node trees) and membership in Python's grammar as the assertion; no encodable kernel (DESIGN §6)",
     "C04": "oracle is Python's dynamic semantics over whole programs and the subject is the whole checker (HashSet/recursion out of reach of Kani; not loop-free for the MIR executor) (DESIGN §6)",
